@@ -221,6 +221,7 @@ fn gen_history(rng: &mut Rng) -> String {
     // TRUNCATE and the unique probe miss keys -- not C12's subject
     let mut tree = 0usize;
     let mut reopened = false;
+    let mut deleted_ids: std::collections::BTreeSet<i64> = std::collections::BTreeSet::new();
     for _ in 0..n {
         let r = rng.below(100);
         if r < 50 {
@@ -246,6 +247,10 @@ fn gen_history(rng: &mut Rng) -> String {
         } else if r < 68 {
             // delete, biased to the maximum id
             let v = if rng.chance(1, 2) { hi } else { 1 + rng.below(hi.max(1) as u64) as i64 };
+            // DELETE matches tombstones too (C05): deleting an already deleted id inside a transaction and
+            // rolling back resurrects the row through the undo log (C07) - not C12's subject
+            if in_txn && deleted_ids.contains(&v) { continue; }
+            deleted_ids.insert(v);
             ops.push(format!("delete {v}"));
         } else if r < 80 {
             if in_txn { ops.push(if rng.chance(2, 3) { "rollback".into() } else { "commit".into() }); in_txn = false; }
